@@ -6,7 +6,8 @@ open ArrModel Driver
 def showPairArr (a : Arr (Int × Int)) : String :=
   showNatList a.shape ++ ":" ++ showList (fun p => toString p.1 ++ "/" ++ toString p.2) a.elems
 
-def handle (op : String) (args : List String) : Option String :=
+/-- one call -/
+def handle1 (op : String) (args : List String) : Option String :=
   match op, args with
   | "broadcast", [a, b] => do
     let a ← parseArr? a; let b ← parseArr? b
@@ -28,6 +29,59 @@ def handle (op : String) (args : List String) : Option String :=
     let a ← parseArr? a; let b ← parseArr? b; let c ← parseArr? c
     some (showRes (fun p => showArr p.1 ++ ";" ++ showArr p.2.1 ++ ";" ++ showArr p.2.2) (a.broadcastH3 0 b c))
   | _, _ => none
+
+/-- the token list cut at every separator token -/
+def splitTok (sep : String) : List String → List (List String)
+  | [] => [[]]
+  | x :: xs =>
+    match splitTok sep xs with
+    | [] => [[x]]
+    | g :: gs => if x == sep then [] :: g :: gs else (x :: g) :: gs
+
+/-- the shape of an array spelling (`i2,3`, `i2,3+1000`, `2,3:…`) without building the elements -/
+def shapeOf? (s : String) : Option (List Nat) :=
+  if s.startsWith "i" then parseNatList? (((s.drop 1).toString.splitOn "+").headD "")
+  else match s.splitOn ":" with
+    | [sh, _] => parseNatList? sh
+    | _ => none
+
+def showShapeRes (r : Res (List Nat)) (want : Option (List Nat)) : String :=
+  match r with
+  | .ok fs => if want.all (· == fs) then "shape " ++ showNatList fs else "err BroadcastShapeMismatch"
+  | .err e => "err " ++ e.name
+  | .panic => "panic"
+
+/-- `n <call>`: huge operands with a huge SOURCE, where the list-backed gather of the model is too slow.  The model answers the
+result SHAPE only (`broadcastShape` / `commonBroadcastShape`, the definitions of theorems C and F); the values are compared by
+the harness with its native reference, which is itself compared with the full model answer on every other case of the run.
+Only generated for zero-free shapes where a stretch exists or the shapes clash. -/
+def handleN (op : String) (args : List String) : Option String :=
+  match op, args with
+  | "broadcast", [a, b] => do
+    let sa ← shapeOf? a; let sb ← shapeOf? b
+    some (showShapeRes (broadcastShape sa sb) none)
+  | "zip", [a, b] => do
+    let sa ← shapeOf? a; let sb ← shapeOf? b
+    some (showShapeRes (broadcastShape sb sa) (some sa))
+  | "broadcast_to", [a, t] => do
+    let sa ← shapeOf? a; let t ← parseNatList? t
+    some (showShapeRes (broadcastShape sa t) (some t))
+  | "broadcast_arrays", [l] => do
+    let ss ← (l.splitOn ";").mapM shapeOf?
+    some (showShapeRes (commonBroadcastShape ss) none)
+  | _, _ => none
+
+def handle (op : String) (args : List String) : Option String :=
+  match op, args with
+  -- `seq call / call / …`: several calls executed one after the other on the same thread (hidden-state streams)
+  | "seq", _ => do
+    let parts := splitTok "/" args
+    let answers ← parts.mapM (fun p => match p with | o :: as => handle1 o as | [] => none)
+    some (" / ".intercalate answers)
+  | "n", o :: as => handleN o as
+  -- bookkeeping lines of the harness (how often its native reference was compared with the model)
+  | "oracle_report", _ => some "ok report"
+  | _, _ => handle1 op args
 
 end Driver.C03
 
